@@ -1,6 +1,7 @@
 from __future__ import annotations
 
 import io
+import weakref
 from contextlib import contextmanager
 from enum import Enum
 from functools import lru_cache
@@ -581,6 +582,9 @@ class UnionMetaType(StructureMetaType):
         object.__setattr__(obj, "_values", result)
         object.__setattr__(obj, "_sizes", sizes)
         object.__setattr__(obj, "_buf", buf)
+        # The members are parsed from a copy of the union's bytes, pointers among them point into the stream itself
+        # (a weak reference: the pointers themselves keep the stream alive as long as it is needed)
+        object.__setattr__(obj, "_stream", weakref.ref(stream))
 
         if cls.size is not None:
             obj._update()
@@ -624,6 +628,22 @@ class UnionMetaType(StructureMetaType):
             stream.write(b"\x00" * remaining)
 
         return stream.tell() - offset
+
+
+def _rebind_pointers(value: Any, buf: BinaryIO, stream: BinaryIO) -> None:
+    """Let the pointers that were parsed from the private buffer of a union point into the stream the union came from."""
+    if isinstance(value, Pointer):
+        value._stream = stream
+    elif isinstance(value, dict):
+        for item in value.values():
+            _rebind_pointers(item, buf, stream)
+    elif isinstance(value, list):
+        for item in value:
+            _rebind_pointers(item, buf, stream)
+    elif isinstance(value, Structure):
+        if isinstance(value, Union) and "_stream" in value.__dict__:
+            object.__setattr__(value, "_stream", weakref.ref(stream))
+        _rebind_pointers({k: v for k, v in value.__dict__.items() if k != "_stream"}, buf, stream)
 
 
 def _read_member(field: Field, field_type: type[BaseType], stream: BinaryIO, context: dict[str, Any] | None) -> Any:
@@ -696,7 +716,10 @@ class Union(Structure, metaclass=UnionMetaType):
         self._proxify()
 
     def _update(self) -> None:
-        result, sizes = self.__class__._read_fields(io.BytesIO(self._buf))
+        buf = io.BytesIO(self._buf)
+        result, sizes = self.__class__._read_fields(buf)
+        if (ref := getattr(self, "_stream", None)) is not None and (stream := ref()) is not None:
+            _rebind_pointers(result, buf, stream)
         self.__dict__.update(result)
         object.__setattr__(self, "_values", result)
         object.__setattr__(self, "_sizes", sizes)
